@@ -7,7 +7,11 @@ export CARGO_NET_OFFLINE=true
 TARGETS=$(python3 -c "
 import json
 m = json.load(open('MANIFEST.json'))
-print(' '.join('theories/Props/%s.vo theories/Judge/%s.vo' % (c['property_id'], c['property_id']) for c in m['checks']))")
+import os
+def t(p):
+    link = ' theories/Props/%sLink.vo' % p if os.path.exists('coq/theories/Props/%sLink.v' % p) else ''
+    return 'theories/Props/%s.vo theories/Judge/%s.vo%s' % (p, p, link)
+print(' '.join(t(c['property_id']) for c in m['checks']))")
 cd coq
 coq_makefile -f _CoqProject $(find theories -name '*.v' | sort) -o Makefile > /dev/null
 timeout 3000 make -j16 $TARGETS
